@@ -47,9 +47,12 @@ def layout_jobs(tier):
     for L in (1, 3, 9):
         resume.append([("w", 0, L), ("open", {"uuid": "resumed-session"}), ("w", 0, 2), ("w", 60, 2)])
         resume.append([("w", 0, L), ("w", L + 2, 2), ("open", {"uuid": "resumed-session", "start_delta": L + 1}), ("w", 0, 3), ("w", 70, 1)])
+    # a write after a gap, then an append that relies on the writer's own next-available sample (no index given)
+    appended = [[("w", 0, L), ("w", L + G, L2), ("wn", 2), ("wn", 1)] for L in (1, 3) for G in (2, 9) for L2 in (1, 3)]
+    appended += [[b, ("wn", 2)] for b in blocks[::4]]
     hist_all = [(s, "linear") for s in seqs2] + [(s, "full") for s in seqs3] + \
         [([b], "linear") for b in blocks] + [(m, "full") for m in mixed] + [(m, "full") for m in mixed3] + \
-        [(m, "full") for m in resume]
+        [(m, "full") for m in resume] + [(m, "full") for m in appended]
     # compression / checksum variants share the chunked code path with gapped mode: in the quick
     # tier they get a third of the depth-2 sequences plus all block layouts
     hist_light = [(s, "linear") for s in seqs2[::3]] + [([b], "linear") for b in blocks]
